@@ -505,4 +505,70 @@ fn generate_all(thorough: bool, seed: u64, out: &mut dyn Write) {
     crate::c18_pbc::generate(thorough, seed, out);
 }
 
-pub fn dump(out: &mut dyn Write) {}
+/// T2: the discriminant tables of the `repr` / magic enums the header grammars depend on, read off the
+/// **compiled** parsers through the public API by sweeping the whole u8 / u16 domain of the field in a
+/// minimal valid file (`from_existing(..).is_some()` ⟺ the value is a variant).  Printed as Lean
+/// source (`Generated/C18Enums.lean`) on every run of the check; the models use these tables.
+pub fn dump(out: &mut dyn Write) {
+    let mut rng = Rng::new(1, "C18-dump");
+    let seeds = header_seeds(&mut rng);
+    let find = |op: &str, pred: &dyn Fn(&Seed) -> bool| -> Vec<u8> {
+        seeds.iter().find(|s| s.op == op && pred(s)).expect("seed").bytes.clone()
+    };
+    let sweep = |name: &str, base: &[u8], off: usize, width: usize, be: bool, max: u32, ok: &dyn Fn(&[u8]) -> bool, out: &mut dyn Write| {
+        let mut vals: Vec<u32> = vec![];
+        let mut b = base.to_vec();
+        for v in 0..=max {
+            for i in 0..width {
+                let sh = if be { 8 * (width - 1 - i) } else { 8 * i };
+                b[off + i] = (v >> sh) as u8;
+            }
+            if ok(&b) {
+                vals.push(v);
+            }
+        }
+        let list = vals.iter().map(|v| v.to_string()).collect::<Vec<_>>().join(", ");
+        writeln!(out, "def {} : List Nat := [{}]", name, list).unwrap();
+    };
+    writeln!(out, "-- GENERATED by `harness C18 dump` from the compiled code (T2: exhaustive sweep of the field's").unwrap();
+    writeln!(out, "-- whole u8 / u16 domain through the public parsers) — do not edit, rewritten by ./check on every run").unwrap();
+    writeln!(out, "namespace Physis.Generated.C18").unwrap();
+    let sqdb = find("sqdb", &|s| s.bytes.len() == 2048);
+    let is_sqdb = |b: &[u8]| physis::sqpack::SqPackDatabase::from_existing(b).is_some();
+    writeln!(out, "/-- `Platform` (`src/common.rs`, repr u8) -/").unwrap();
+    sweep("platformIds", &sqdb, 8, 1, false, 255, &is_sqdb, out);
+    writeln!(out, "/-- `SqPackFileType` (`src/sqpack/mod.rs`, repr u8) -/").unwrap();
+    sweep("sqpackFileTypes", &sqdb, 20, 1, false, 255, &is_sqdb, out);
+    writeln!(out, "/-- `Region` (`src/common.rs`, repr i16) as u16 bit patterns -/").unwrap();
+    sweep("regionIds", &sqdb, 32, 2, false, 65535, &is_sqdb, out);
+    let exh = find("exh", &|s| s.bytes[8] == 0 && s.bytes[9] == 3); // 3 columns, 1 page, 1 language
+    let is_exh = |b: &[u8]| physis::exh::EXH::from_existing(b).is_some();
+    writeln!(out, "/-- `ColumnDataType` (`src/exh.rs`, repr u16) -/").unwrap();
+    sweep("columnTypes", &exh, 32, 2, true, 65535, &is_exh, out);
+    writeln!(out, "/-- `Language` (`src/common.rs`, repr u8) -/").unwrap();
+    sweep("languageIds", &exh, 32 + 3 * 4 + 8, 1, false, 255, &is_exh, out);
+    // texture formats: a header with zero dimensions parses for every variant
+    let mut tex = vec![0u8; 80];
+    tex[2] = 0x80;
+    let is_tex = |b: &[u8]| physis::tex::Texture::from_existing(b).is_some();
+    writeln!(out, "/-- `TextureFormat` (`src/tex.rs`, repr u32): the variants below 2^16 -/").unwrap();
+    sweep("texFormats", &tex, 4, 2, false, 65535, &is_tex, out);
+    let pap = find("pap", &|_| true);
+    writeln!(out, "/-- `SkeletonType` (`src/pap.rs`, u8 magics) -/").unwrap();
+    sweep("skeletonTypes", &pap, 12, 1, false, 255, &|b| physis::pap::Pap::from_existing(b).is_some(), out);
+    let schd = find("schd", &|_| true);
+    writeln!(out, "/-- `ShaderStage` (`src/schd.rs`, u8 magics) -/").unwrap();
+    sweep("shaderStages", &schd, 7, 1, false, 255, &|b| physis::schd::Schd::from_existing(b).is_some(), out);
+    // index type: through a file on disk
+    let idx = crate::c18_arc::index_file(&[], false).v;
+    let td = TempDir::new("c18dump");
+    let path = td.path().join("x.index");
+    let ps = path.to_str().unwrap().to_string();
+    let is_idx = |b: &[u8]| {
+        std::fs::write(&path, b).unwrap();
+        physis::sqpack::SqPackIndex::from_existing(&ps).is_some()
+    };
+    writeln!(out, "/-- `IndexType` (`src/sqpack/index.rs`, repr u8) -/").unwrap();
+    sweep("indexTypes", &idx, 1024 + 4 + 76 + 72 * 3, 1, false, 255, &is_idx, out);
+    writeln!(out, "end Physis.Generated.C18").unwrap();
+}
